@@ -11,6 +11,7 @@ import (
 	"os/exec"
 	"path/filepath"
 	"regexp"
+	"runtime"
 	"strconv"
 	"strings"
 	"sync"
@@ -69,6 +70,11 @@ func workerC13(args []string) int {
 	}
 	fmt.Println("PHASE background")
 	c13Background(rng, thorough)
+	if hungOnce.Load() {
+		return 0
+	}
+	fmt.Println("PHASE parallel")
+	c13ParallelLoads(rng, thorough)
 	if hungOnce.Load() {
 		return 0
 	}
@@ -216,6 +222,94 @@ func c13Background(rng *rand.Rand, thorough bool) {
 		wg.Wait()
 		world.SetHandler(nil)
 		time.Sleep(20 * time.Millisecond)
+		watchdog("cleanup", 30*time.Second, func() { w.Cleanup() })
+		watchdog("destroy", 30*time.Second, func() { w.Destroy() })
+		org.Close()
+	}
+}
+
+// c13ParallelLoads: first-use downloads of DISTINCT locations at the same time (plus a refresh pass): whatever the parsers,
+// verifiers and stores share across CRLs is exercised under the race detector, and every verdict must be the one any sequential
+// order gives (each certificate is judged by its own location's list).
+func c13ParallelLoads(rng *rand.Rand, thorough bool) {
+	rounds := 4
+	if thorough {
+		rounds = 24
+	}
+	const k = 4
+	for i := 0; i < rounds; i++ {
+		disk := i%2 == 0
+		org := origin.New()
+		alg := []string{"ecdsa", "rsa"}[(i/2)%2]
+		ca := pki.NewCA(pki.CAOpts{Name: "Parallel CA", Serial: 711, Alg: alg, RSAIndex: 0})
+		var chains [][][]*x509.Certificate
+		var want []string
+		// the downloads are released together
+		var mu sync.Mutex
+		arrived := 0
+		gate := make(chan struct{})
+		for j := 0; j < k; j++ {
+			serial := big.NewInt(int64(7100 + j))
+			path := fmt.Sprintf("/par/%d.crl", j)
+			leaf := ca.Leaf(pki.LeafOpts{CN: fmt.Sprintf("par %d", j), Serial: serial, CDP: []string{org.URL + path}})
+			chains = append(chains, pki.Chain(leaf.Cert, ca))
+			var listed []*big.Int
+			var avoid []*big.Int
+			if j%2 == 0 {
+				listed = []*big.Int{serial}
+				want = append(want, "revoked")
+			} else {
+				avoid = []*big.Int{serial}
+				want = append(want, "accept")
+			}
+			body := BuildCRL(CRLSpec{Signer: ca, Listed: listed, Avoid: avoid, Number: int64(j + 1)}, Shape{Size: "s300", Pos: "middle", Width: "w8", Ext: "reason", Enc: []string{"der", "pem"}[j%2]})
+			org.Set(path, origin.Behaviour{Kind: "func", Func: func([]byte) (int, []byte) {
+				mu.Lock()
+				arrived++
+				if arrived == k {
+					close(gate)
+				}
+				mu.Unlock()
+				select {
+				case <-gate:
+				case <-time.After(2 * time.Second):
+				}
+				return 200, body
+			}})
+		}
+		w, err := world.New(world.Cfg{Mode: "crl_only", Storage: backendName(disk), Sig: "verify", Fetch: "fetch_actively", CdpStrict: true, Interval: "1h"})
+		if err != nil {
+			fmt.Println("WORKER-ERROR", err)
+			return
+		}
+		if err := w.Provision(); err != nil {
+			fmt.Println("WORKER-ERROR", err)
+			return
+		}
+		got := make([]world.Result, k)
+		var wg sync.WaitGroup
+		for j := 0; j < k; j++ {
+			j := j
+			wg.Add(1)
+			go func() {
+				defer wg.Done()
+				watchdog("parallel first load", 30*time.Second, func() { got[j] = w.Handshake(chains[j]) })
+			}()
+		}
+		wg.Add(1)
+		go func() {
+			defer wg.Done()
+			time.Sleep(time.Millisecond)
+			watchdog("refresh", 60*time.Second, func() { w.RefreshAll() })
+		}()
+		wg.Wait()
+		for j := 0; j < k && !hungOnce.Load(); j++ {
+			if got[j].Verdict == "panic" {
+				fmt.Println("CRASH parallel first-load handshake panicked:", got[j].Panic)
+			} else if got[j].Verdict != want[j] {
+				fmt.Printf("WRONG parallel-first-loads handshake %d of %s/%s answered %q (%s), every sequential order gives %q\n", j, backendName(disk), alg, got[j].Verdict, got[j].Err, want[j])
+			}
+		}
 		watchdog("cleanup", 30*time.Second, func() { w.Cleanup() })
 		watchdog("destroy", 30*time.Second, func() { w.Destroy() })
 		org.Close()
@@ -450,37 +544,63 @@ func init() {
 		dir, _ := os.MkdirTemp("", "verif.c13.")
 		defer os.RemoveAll(dir)
 		trace := filepath.Join(dir, "trace")
-		cmd := exec.Command(raceBin, "worker", "c13race", strconv.FormatInt(c.Seed, 10), c.Tier, trace)
-		cmd.Env = append(os.Environ(), "GORACE=halt_on_error=0 exitcode=0")
-		var out bytes.Buffer
-		cmd.Stdout = &out
-		cmd.Stderr = &out
-		done := make(chan error, 1)
-		if err := cmd.Start(); err != nil {
-			c.Infra("start race worker: %v", err)
-		}
-		go func() { done <- cmd.Wait() }()
 		limit := 10 * time.Minute
 		if c.Thorough() {
 			limit = 40 * time.Minute
 		}
-		select {
-		case err := <-done:
-			if err != nil && !strings.Contains(out.String(), "PHASE done") {
-				c.Infra("race worker failed: %v\n%s", err, tailStr(out.String(), 40))
+		// runWorker starts the race-built child (optionally with address space randomisation off: the race runtime refuses to
+		// start under some kernels' mmap layouts) and returns its combined output; timedOut = the time limit was reached.
+		runWorker := func(noASLR bool) (text string, err error, timedOut bool) {
+			args := []string{raceBin, "worker", "c13race", strconv.FormatInt(c.Seed, 10), c.Tier, trace}
+			if noASLR {
+				args = append([]string{"setarch", runtimeArch(), "-R"}, args...)
 			}
-		case <-time.After(limit):
-			cmd.Process.Kill()
-			c.Violation("no-termination:race-worker", "the concurrent scenarios did not finish within the time limit (deadlock)", map[string]any{"output_tail": tailStr(out.String(), 60)})
+			cmd := exec.Command(args[0], args[1:]...)
+			cmd.Env = append(os.Environ(), "GORACE=halt_on_error=0 exitcode=0")
+			var out bytes.Buffer
+			cmd.Stdout = &out
+			cmd.Stderr = &out
+			done := make(chan error, 1)
+			if err := cmd.Start(); err != nil {
+				return "", err, false
+			}
+			go func() { done <- cmd.Wait() }()
+			select {
+			case err := <-done:
+				return out.String(), err, false
+			case <-time.After(limit):
+				cmd.Process.Kill()
+				<-done
+				return out.String(), nil, true
+			}
+		}
+		text, err, timedOut := runWorker(false)
+		if !timedOut && !strings.Contains(text, "PHASE ") {
+			// the child never reached its first phase: not a statement about the repository; one more attempt without ASLR
+			first := tailStr(text, 15)
+			text, err, timedOut = runWorker(true)
+			if !timedOut && !strings.Contains(text, "PHASE ") {
+				c.Infra("the race-built worker does not start (plain: %s) (setarch -R: %v %s)", first, err, tailStr(text, 15))
+			}
+			c.Set("race_worker_started_without_aslr", true)
+		}
+		if timedOut {
+			c.Violation("no-termination:race-worker", "the concurrent scenarios did not finish within the time limit (deadlock)", map[string]any{"output_tail": tailStr(text, 60)})
 			return
 		}
-		text := out.String()
+		if !strings.Contains(text, "PHASE done") && !strings.Contains(text, "HANG ") && !strings.Contains(text, "panic:") && !strings.Contains(text, "fatal error:") && !strings.Contains(text, "CRASH ") {
+			// ended early without saying why (killed, out of memory, start-up failure): nothing was decided
+			c.Infra("race worker ended before its last phase: %v\n%s", err, tailStr(text, 40))
+		}
 		for sig, block := range raceSignatures(text) {
 			c.Violation(sig, "the race detector reported a data race while the explored schedules were executing", map[string]any{"report": block})
 		}
 		for _, line := range strings.Split(text, "\n") {
 			if strings.HasPrefix(line, "HANG ") {
 				c.Violation("deadlock:"+strings.Fields(line)[1], line, map[string]any{"output_tail": tailStr(text, 60)})
+			}
+			if strings.HasPrefix(line, "WRONG ") {
+				c.Violation("verdict-not-sequential:"+strings.Fields(line)[1], line, map[string]any{"output_tail": tailStr(text, 40)})
 			}
 			if strings.HasPrefix(line, "CRASH ") {
 				c.Violation("crash:"+strings.Join(strings.Fields(line)[1:4], "-"), line, map[string]any{"output_tail": tailStr(text, 40)})
@@ -512,6 +632,13 @@ func init() {
 		c.Add("traces_validated_against_impl", int64(traces))
 		c.Sample(map[string]any{"race_worker_phases": strings.Count(text, "PHASE "), "stress_traces": traces})
 	}
+}
+
+func runtimeArch() string {
+	if runtime.GOARCH == "arm64" {
+		return "aarch64"
+	}
+	return "x86_64"
 }
 
 func tailStr(s string, n int) string {
